@@ -164,6 +164,13 @@ func checkC10(c *Ctx, e *Env) {
 		c.Count("modules", 1)
 		c.Count("closure_roots", len(roots))
 		nsub := 0
+		var zoneFns []*ssa.Function
+		for _, fn := range sortedFns(cl) {
+			if g.isSubjectFn(fn) && excludedPkg(fnPkgPath(fn)) == "" {
+				zoneFns = append(zoneFns, fn)
+			}
+		}
+		ruleLocalZone(c, m, g, zoneFns)
 		for _, fn := range sortedFns(cl) {
 			if ex := excludedPkg(fnPkgPath(fn)); ex != "" && len(fn.Blocks) > 0 && g.isSubjectFn(fn) {
 				c.Violate("C10.CLOSURE", funcKey(fn), m.P.Pos(fn.Pos()), "consensus closure reaches a function of an excluded package ("+ex+") via "+g.PathTo(fn), nil)
@@ -1026,4 +1033,141 @@ func nonDebugRefs(v ssa.Value) []ssa.Instruction {
 		out = append(out, r)
 	}
 	return out
+}
+
+// ---- D2 (time zone): the machine's local time zone never reaches a calendar computation ---------------
+//
+// Block time is UTC on every node. time.Unix / UnixMilli / UnixMicro, Time.Local, Time.In(time.Local) and
+// time.Date(…, time.Local) yield the same instant in the zone of the machine the process runs on; the
+// instant is safe to compare and to store, but Year, Month, Day, Hour, Weekday, YearDay, Date, Clock,
+// ISOWeek, Format, String, Zone, Location … of such a value differ between validators in different zones.
+// Taint: from those sources, through time arithmetic, local variables, φs and the parameters of
+// hand-written callees; Time.UTC() clears it. A zone-dependent method on a tainted value is a violation.
+var zoneSinks = map[string]bool{"Year": true, "Month": true, "Day": true, "Hour": true, "Minute": true, "Weekday": true, "YearDay": true, "Date": true, "Clock": true, "ISOWeek": true, "Format": true, "AppendFormat": true, "String": true, "GoString": true, "Zone": true, "ZoneBounds": true, "Location": true, "MarshalJSON": true, "MarshalText": true, "IsDST": true}
+
+func ruleLocalZone(c *Ctx, m *Model, g *Graph, fns []*ssa.Function) {
+	p := m.P
+	tainted := map[ssa.Value]string{}
+	isTime := func(t types.Type) bool { return typeIs(t, "time", "Time") }
+	refsLocal := func(v ssa.Value) bool {
+		if u, ok := v.(*ssa.UnOp); ok && u.Op == token.MUL {
+			if gl, isG := u.X.(*ssa.Global); isG && gl.Pkg != nil && gl.Pkg.Pkg.Path() == "time" && gl.Name() == "Local" {
+				return true
+			}
+		}
+		return false
+	}
+	inSet := map[*ssa.Function]bool{}
+	for _, f := range fns {
+		inSet[f] = true
+	}
+	for changed, rounds := true, 0; changed && rounds < 8; rounds++ {
+		changed = false
+		mark := func(v ssa.Value, why string) {
+			if v == nil {
+				return
+			}
+			if _, has := tainted[v]; !has {
+				tainted[v] = why
+				changed = true
+			}
+		}
+		for _, fn := range fns {
+			for _, b := range fn.Blocks {
+				for _, in := range b.Instrs {
+					switch y := in.(type) {
+					case *ssa.Call:
+						pkg, name := calleePkgName(&y.Call)
+						if pkg == "time" {
+							switch name {
+							case "Unix", "UnixMilli", "UnixMicro":
+								mark(y, "time."+name+" at "+p.Pos(y.Pos()))
+							case "Date", "ParseInLocation":
+								for _, a := range y.Call.Args {
+									if refsLocal(a) {
+										mark(y, "time."+name+"(…, time.Local) at "+p.Pos(y.Pos()))
+									}
+								}
+							case "Time.Local":
+								mark(y, "Time.Local() at "+p.Pos(y.Pos()))
+							case "Time.In":
+								if len(y.Call.Args) == 2 && refsLocal(y.Call.Args[1]) {
+									mark(y, "Time.In(time.Local) at "+p.Pos(y.Pos()))
+								}
+							case "Time.UTC":
+								// clears
+							default:
+								// time arithmetic keeps the location of its receiver
+								if strings.HasPrefix(name, "Time.") && len(y.Call.Args) > 0 && isTime(y.Type()) {
+									if why, has := tainted[y.Call.Args[0]]; has {
+										mark(y, why)
+									}
+								}
+							}
+							continue
+						}
+						// hand-written callee: parameters inherit, a tainted return taints the call
+						if sc := y.Call.StaticCallee(); sc != nil && inSet[sc] {
+							for i, a := range y.Call.Args {
+								if why, has := tainted[a]; has && i < len(sc.Params) {
+									mark(sc.Params[i], why)
+								}
+							}
+							for _, b2 := range sc.Blocks {
+								if ret, isR := b2.Instrs[len(b2.Instrs)-1].(*ssa.Return); isR {
+									for _, rv := range ret.Results {
+										if why, has := tainted[rv]; has && isTime(rv.Type()) && isTime(y.Type()) {
+											mark(y, why)
+										}
+									}
+								}
+							}
+						}
+					case *ssa.Phi:
+						for _, e := range y.Edges {
+							if why, has := tainted[e]; has {
+								mark(y, why)
+							}
+						}
+					case *ssa.Extract:
+						if why, has := tainted[y.Tuple]; has && isTime(y.Type()) {
+							mark(y, why)
+						}
+					case *ssa.Store:
+						if why, has := tainted[y.Val]; has {
+							mark(y.Addr, why)
+						}
+					case *ssa.UnOp:
+						if y.Op == token.MUL {
+							if why, has := tainted[y.X]; has {
+								mark(y, why)
+							}
+						}
+					case *ssa.MakeClosure:
+						if cf, isF := y.Fn.(*ssa.Function); isF {
+							for i, bnd := range y.Bindings {
+								if why, has := tainted[bnd]; has && i < len(cf.FreeVars) {
+									mark(cf.FreeVars[i], why)
+								}
+							}
+						}
+					}
+				}
+			}
+		}
+	}
+	n := 0
+	for _, fn := range fns {
+		for _, ci := range callsIn(fn) {
+			pkg, name := calleePkgName(ci.Common())
+			if pkg != "time" || !strings.HasPrefix(name, "Time.") || !zoneSinks[strings.TrimPrefix(name, "Time.")] || len(ci.Common().Args) == 0 {
+				continue
+			}
+			n++
+			if why, has := tainted[ci.Common().Args[0]]; has {
+				c.Violate("C10.D2", funcKey(fn)+"#localzone:"+name, p.Pos(ci.Pos()), name+" is evaluated on a time value that carries the machine's local time zone ("+why+"): validators in different zones compute different calendar fields from the same block", nil)
+			}
+		}
+	}
+	c.Count("zone_dependent_time_calls", n)
 }
